@@ -504,19 +504,21 @@ pub fn run(args: &Args) {
         &Spec::SilRate(256, 256),
         "F12-stm",
     );
+    // (the swap chain starts the loop on the first clock update after the lap boundary and notices its end on a later
+    // one: two updates at least)
     // a finite loop that has run to its end parks the index on the last entry; an infinite-loop write to that same
     // (now playing) segment must play from the clock again, exactly as on a fresh device
     run_case(
         &mut out,
         1,
-        &[Step::Send(Spec::Mod { seg: 1, tr: Some((0x00, 0)), rep: 0, div: 10, n: 4, seed: 2 }), Step::Clk(30_000_000)],
+        &[Step::Send(Spec::Mod { seg: 1, tr: Some((0x00, 0)), rep: 0, div: 10, n: 4, seed: 2 }), Step::Clk(30_000_000), Step::Clk(30_000_000), Step::Clk(1_000_000)],
         &Spec::Mod { seg: 1, tr: Some((0xFF, 0)), rep: 0xFFFF, div: 10, n: 8, seed: 3 },
         "finished-finite-loop-then-rewrite",
     );
     run_case(
         &mut out,
         1,
-        &[Step::Send(Spec::Foci { n: 1, seg: 1, tr: Some((0x00, 0)), rep: 1, div: 100, ss: 21760, size: 4, seed: 2 }), Step::Clk(300_000_000)],
+        &[Step::Send(Spec::Foci { n: 1, seg: 1, tr: Some((0x00, 0)), rep: 1, div: 100, ss: 21760, size: 4, seed: 2 }), Step::Clk(300_000_000), Step::Clk(300_000_000), Step::Clk(1_000_000)],
         &Spec::GainStm { mode: 0, seg: 1, tr: Some((0xFF, 0)), rep: 0xFFFF, div: 100, size: 5, seed: 3 },
         "finished-finite-loop-then-rewrite-stm",
     );
